@@ -97,7 +97,14 @@ void out_viol(const char *prop, const char *key, const char *replay_json, const 
         va_list ap; va_start(ap, fmt); vsnprintf(msg, sizeof msg, fmt, ap); va_end(ap);
         pthread_mutex_lock(&out_mu);
         n_viol++;
-        if (n_viol <= 200) {
+        /* print each distinct key at most twice, at most 600 distinct keys */
+        static uint64_t seen[1024]; static uint8_t cnt[1024]; static int nseen;
+        uint64_t kh = 1469598103934665603ULL; for (const char *q = key; *q; q++) kh = (kh ^ (uint8_t) *q) * 1099511628211ULL;
+        int i, show = 0;
+        for (i = 0; i < nseen; i++) if (seen[i] == kh) break;
+        if (i == nseen) { if (nseen < 600) { seen[nseen] = kh; cnt[nseen] = 1; nseen++; show = 1; } }
+        else if (cnt[i] < 2) { cnt[i]++; show = 1; }
+        if (show) {
                 fputs("{\"t\":\"viol\",\"prop\":", stdout); json_str(stdout, prop);
                 fputs(",\"key\":", stdout); json_str(stdout, key);
                 fputs(",\"msg\":", stdout); json_str(stdout, msg);
@@ -389,3 +396,49 @@ static disp_t *find_disp(void *entry)
 }
 void *disp_target_of(void *entry) { return disp_target(find_disp(entry)); }
 int disp_is_resolved(void *entry) { disp_t *d = find_disp(entry); return *d->slot != d->initial; }
+
+/* ---------------- symbolizer over the nm listing written next to the binary (non-PIE) ---------------- */
+static struct symrec { uintptr_t a; char t; char *n; } *syms; static int nsyms = -1;
+static void syms_load(void)
+{
+        if (nsyms >= 0) return;
+        nsyms = 0;
+        char path[600]; snprintf(path, sizeof path, "%s.syms", g_argv ? g_argv[0] : "");
+        FILE *f = fopen(path, "r");
+        if (!f) return;
+        int cap = 0; char line[600];
+        while (fgets(line, sizeof line, f)) {
+                unsigned long a; char t; char name[500];
+                if (sscanf(line, "%lx %c %499s", &a, &t, name) != 3) continue;
+                if (nsyms == cap) { cap = cap ? cap * 2 : 4096; syms = realloc(syms, (size_t) cap * sizeof *syms); }
+                syms[nsyms].a = a; syms[nsyms].t = t; syms[nsyms].n = strdup(name); nsyms++;
+        }
+        fclose(f);
+}
+const char *sym_containing(const void *addr, long *off)
+{
+        syms_load();
+        int lo = 0, hi = nsyms - 1, best = -1;
+        while (lo <= hi) { int mid = (lo + hi) / 2; if (syms[mid].a <= (uintptr_t) addr) { best = mid; lo = mid + 1; } else hi = mid - 1; }
+        if (best < 0) { if (off) *off = 0; return "?"; }
+        if (off) *off = (long) ((uintptr_t) addr - syms[best].a);
+        return syms[best].n;
+}
+const char *sym_name(const void *addr)
+{
+        syms_load();
+        const char *best = "?";
+        for (int i = 0; i < nsyms; i++) {
+                if (syms[i].a != (uintptr_t) addr) continue;
+                if (strstr(syms[i].n, "_slver") || strstr(syms[i].n, "_mbinit")) continue;
+                /* prefer global names, and the longest alias */
+                if (best[0] == '?' || (syms[i].t == 'T' && strlen(syms[i].n) > strlen(best))) best = syms[i].n;
+        }
+        return best;
+}
+void *sym_addr(const char *name)
+{
+        syms_load();
+        for (int i = 0; i < nsyms; i++) if (!strcmp(syms[i].n, name)) return (void *) syms[i].a;
+        return NULL;
+}
